@@ -17,8 +17,8 @@ UNITS = {'fs': dict(wrap='wrap.cc', new_block=64),
          'fsx': dict(wrap='wrap.cc', new_block=64, cuts=[r'^_ZN5phosg16cannot_open_fileC1ERKNSt7__cxx1112basic_string'])}
 BOUNDS = ('read_all(fd)/read_all(FILE*): internal block size 4 (source: 16384, replaced by src_subst), source length 0..9 bytes (quick 0..5 / 0..8), '
           'symbolic contents, every chunking in which each read() returns 1..min(requested, remaining) bytes, read fault at any call; '
-          'phosg::fgets: internal block size 8 (source: 256, replaced by src_subst), line lengths {0,1,5,6,7,8,13,14,15,21,22} with/without newline, '
-          'symbolic line bytes (no NUL), ::fgets failure at call 0/1/2 in dedicated cells; readx/writex/preadx/pwritex/freadx/fwritex/read/fread: '
+          'phosg::fgets: internal block size 8 (source: 256, replaced by src_subst), line lengths {0,1,5,6,7,8,9,13,14} with/without newline, '
+          'symbolic line bytes (no NUL), ::fgets failure at call 0/1 in dedicated cells; readx/writex/preadx/pwritex/freadx/fwritex/read/fread: '
           'requested size 0..4, OS count any value in [-1,size]; basename/dirname: every path of 0..5 bytes; Poll: every history of <= 4 (quick 3) '
           'add/remove over fds {3,4,5} with symbolic 16-bit masks; scoped_fd: every sequence of <= 4 (quick 3) operations of 10 kinds over 2 objects')
 STUBS = ['read/write/pread/pwrite: return a solver-chosen count (reads deliver that many bytes of a symbolic source), -1 = failure',
@@ -63,7 +63,7 @@ def queries(tier):
                        desc='scoped_fd: every sequence of %d operations (10 kinds, 2 objects, open may fail) vs an ownership model; every descriptor handed out is closed exactly once' % n,
                        bounds='%d operations, 2 objects' % n))
     for S in ([0, 2, 5] if tier == 'quick' else range(0, 10)):
-        qs.append(dict(name='readall_fd_rs4_len%d' % S, unit='fsrs4' if S < 8 else 'fsrs4b', harness='h_readall.c', defs={'S': S, 'RS': 4}, unwind=max(S, 4) + 4, timeout=1500, mem_gb=7, flags=FS0, backend='cadical',
+        qs.append(dict(name='readall_fd_rs4_len%d' % S, unit='fsrs4' if S < 8 else 'fsrs4b', harness='h_readall.c', defs={'S': S, 'RS': 4}, unwind=max(S, 4) + 4, timeout=1500, mem_gb=(7 if S < 6 else 13), flags=FS0, backend='cadical',
                        desc='read_all(fd) over a %d-byte symbolic source delivered in every possible chunking (each read returns 1..remaining bytes, then 0), optional read fault: result == source or io_error' % S,
                        bounds='source length == %d; <= %d read calls' % (S, S + 2)))
     for S in ([0, 3, 4, 5, 8] if tier == 'quick' else range(0, 10)):
@@ -72,13 +72,13 @@ def queries(tier):
                        bounds='stream length == %d, block size 4 (substituted for 16384)' % S))
     FB = 8
     JOIN = '_ZN5phosg4joinISt5dequeINSt7__cxx1112basic_stringIcSt11char_traitsIcESaIcEEEvEEES7_RKT_.0'
-    cells = [(0, 0), (0, 1), (1, 1), (6, 1), (7, 0), (7, 1), (8, 1)] if tier == 'quick' else [(L, nl) for L in (0, 1, 5, 6, 7, 8, 13, 14, 15, 21, 22) for nl in (0, 1)]
+    cells = [(0, 0), (0, 1), (1, 1), (6, 1), (7, 0), (7, 1), (8, 1)] if tier == 'quick' else [(L, nl) for L in (0, 1, 5, 6, 7, 8, 9, 13, 14) for nl in (0, 1)]
     for L, nl in cells:
         qs.append(dict(name='fgets_fb8_len%d_nl%d' % (L, nl), unit='fsfb8', harness='h_fgets.c', defs={'LEN': L, 'HAS_NL': nl, 'FB': FB}, unwind=max(L + 5, FB + 3), timeout=1800, mem_gb=(7 if L < 13 else 13), flags=FS0, backend='cadical',
                        unwindset='%s:%d' % (JOIN, L // (FB - 1) + 4),  # the join loop runs once per block
                        desc='phosg::fgets (block size 8) on a line of %d symbolic bytes %s, ::fgets per C contract: the whole line, nothing more' % (L, 'newline-terminated + 2 following bytes' if nl else 'ended by end of data'),
                        bounds='line length == %d, block size 8 (substituted for 256)' % L))
-    for L, nl, fa in ([(0, 1, 0), (9, 1, 1)] if tier == 'quick' else [(0, 1, 0), (9, 1, 1), (9, 0, 1), (16, 1, 2)]):
+    for L, nl, fa in ([(0, 1, 0), (9, 1, 1)] if tier == 'quick' else [(0, 1, 0), (9, 1, 1), (9, 0, 1)]):
         qs.append(dict(name='fgets_fb8_len%d_nl%d_fault%d' % (L, nl, fa), unit='fsfb8', harness='h_fgets.c', defs={'LEN': L, 'HAS_NL': nl, 'FB': FB, 'FAULT_AT': fa}, unwind=max(L + 5, 26), timeout=1500, mem_gb=7, flags=FS0, backend='cadical',
                        unwindset='%s:%d' % (JOIN, L // (FB - 1) + 4),
                        desc='phosg::fgets (block size 8), line of %d bytes, the %d-th ::fgets call fails without EOF: io_error, no partial line' % (L, fa),
